@@ -115,4 +115,4 @@ def _collect(shard, seed, n):
 
 
 def collect(ctx):
-    return common.run_shards(_collect, 8 if ctx.quick else 16, ctx.seed, n=40 if ctx.quick else 500)
+    return common.run_shards(_collect, 8 if ctx.quick else 16, ctx.seed, n=100 if ctx.quick else 1500)
